@@ -23,6 +23,7 @@ type c10ps struct {
 	closed   []bool
 	timeouts []int // events passed to OnPubTimeout
 	mu       sync.Mutex
+	slow     bool // receivers yield before every receive
 }
 
 func c10new(nsub int) *c10ps { return c10newOpt(nsub, true) }
@@ -63,6 +64,11 @@ func (s *c10ps) receivers() {
 		i := i
 		vGo(func() {
 			for {
+				if s.slow {
+					// a busy subscriber: it is not yet waiting on its channel when the publisher comes
+					// (a non-blocking send attempt sees nobody and the timer path is taken)
+					vYield()
+				}
 				v, ok := <-s.subs[i]
 				if !ok {
 					break
@@ -130,6 +136,7 @@ func VHPubDeliver() {
 	}
 	evs := c10events()
 	variant := vChoose("variant", 6)
+	s.slow = vParam("SLOW") == 1
 	s.receivers()
 	pub := append([]int(nil), evs...)
 	s.publish(variant, pub)
